@@ -260,6 +260,13 @@ def builtin_cases(draw, tier):
         fams = ["dense", "sparse", "combined"] + (["intermediate"] if p >= 2 else [])
         case["c_pen"] = draw(st.sampled_from(fams))
         case["p_pen"] = draw(st.sampled_from(fams))
+        if draw(st.integers(0, 2)) == 0:
+            # the same family and the same scale for both kinds of anomaly (the defaults share their scale): the two penalties
+            # still differ when the savings estimate different numbers of parameters
+            case["p_pen"], case["p_scale"] = case["c_pen"], case["c_scale"]
+    # re-baselining: the detector is built with a zero-mean cost and told the real baseline afterwards (saving__param = ...)
+    if coll == "L2Cost(0)" and draw(st.integers(0, 2)) == 0:
+        case["rebaseline"] = draw(st.sampled_from([1.5, -2.0, 5.0]))
     # a sentinel / gross error early in the series (missing-value codes such as -9999, 999999): every later anomaly is
     # tiny relative to the cumulative score
     case["history"] = draw(st.sampled_from(K.HISTORIES))
@@ -339,14 +346,26 @@ def check_builtin(case):
     n, p = X.shape
     msl, maxl = case["msl"], case["maxl"]
 
+    rebase = case.get("rebaseline")
+
     def build(ignore):
         cs, ps = make_saving(case["coll"], p), make_saving(case["point"], p)
+        if rebase is not None:
+            det_ = CAPA(cs, ps, case["c_scale"], case["p_scale"], msl, maxl, ignore) if case["detector"] == "CAPA" else \
+                MVCAPA(cs, ps, case["c_pen"], case["c_scale"], case["p_pen"], case["p_scale"], msl, maxl, ignore)
+            det_.set_params(collective_saving__param=rebase)
+            return det_
         if case["detector"] == "CAPA":
             return CAPA(cs, ps, case["c_scale"], case["p_scale"], msl, maxl, ignore)
         return MVCAPA(cs, ps, case["c_pen"], case["c_scale"], case["p_pen"], case["p_scale"], msl, maxl,
                       ignore)
 
-    fresh_c = to_saving(make_saving(case["coll"], p)).fit(X)
+    if rebase is not None:
+        from skchange.costs import L2Cost as _L2
+
+        fresh_c = to_saving(_L2(rebase)).fit(X)
+    else:
+        fresh_c = to_saving(make_saving(case["coll"], p)).fit(X)
     fresh_p = to_saving(make_saving(case["point"], p)).fit(X)
     ms = fresh_c.min_size
     undefined = []
@@ -426,6 +445,10 @@ def check_builtin(case):
         classes.append(f"c_pen={case['c_pen']}")
     if history:
         classes.append(f"history={history}")
+    if rebase is not None:
+        classes.append("rebaselined_with_set_params")
+    if case["detector"] == "MVCAPA" and case.get("c_pen") == case.get("p_pen") and case.get("c_scale") == case.get("p_scale"):
+        classes.append("same_family_and_scale")
     if case.get("tuned"):
         classes.append("placed_at_pruning_boundary")
     if case.get("sentinel") is not None:
